@@ -190,9 +190,30 @@ impl<T: Gen> Gen for std::sync::RwLock<T> {
         std::sync::RwLock::new(T::gen(u, d))
     }
 }
-impl<T: Gen + Clone> Gen for std::borrow::Cow<'static, T> {
+impl Gen for Box<str> {
     fn gen(u: &mut Tape, d: u32) -> Self {
-        std::borrow::Cow::Owned(T::gen(u, d))
+        String::gen(u, d).into_boxed_str()
+    }
+}
+impl<T: Gen> Gen for Box<[T]> {
+    fn gen(u: &mut Tape, d: u32) -> Self {
+        Vec::<T>::gen(u, d).into_boxed_slice()
+    }
+}
+impl Gen for std::borrow::Cow<'static, str> {
+    fn gen(u: &mut Tape, d: u32) -> Self {
+        std::borrow::Cow::Owned(String::gen(u, d))
+    }
+}
+impl<T: Gen + 'static> Gen for std::sync::Weak<T> {
+    fn gen(u: &mut Tape, d: u32) -> Self {
+        if u.choose(2) == 0 {
+            std::sync::Weak::new()
+        } else {
+            // keep the value alive for the life of the process so that the Weak upgrades
+            let strong: &'static std::sync::Arc<T> = Box::leak(Box::new(std::sync::Arc::new(T::gen(u, d + 1))));
+            std::sync::Arc::downgrade(strong)
+        }
     }
 }
 impl<T> Gen for std::marker::PhantomData<T> {
